@@ -43,7 +43,7 @@ def run(repo, res):
     res.rule("R10.3", "the per-edge mutation counts entering the likelihood are exact for mutations above a root: a mutation's edge id is tested against tskit.NULL before it indexes the count array (numpy would credit -1 to the last edge)")
     from . import nullidx
 
-    nullidx.run(repo, res, "R10.3")
+    nullidx.run(repo, res, "R10.3", floor=1, scope=["discrete"])
     ip = repo.fn("discrete", "BeliefPropagation.inside_pass")
     op = repo.fn("discrete", "BeliefPropagation.outside_pass")
     # ---- inside: the non-fixed-child branch
